@@ -182,7 +182,13 @@ class Report:
 
 def expect_value(rep, rac, q, expected, key=None, unit_empty=True):
     """expected: Fraction | 'err'"""
-    st = single_value(rac.query(q))
+    a = rac._ask_chunk_timed([{"cmd": "query", "q": q}], 10.0)
+    if a is None:
+        # the oracle knows the answer at once; the real library does not come back (it is killed and restarted, the run goes on)
+        rep.ran(key or q, True)
+        rep.fail("no answer within 10 s", query=q, expected=str(expected), actual="no answer (evaluation does not terminate, or takes time out of all proportion to the input)")
+        return ("timeout",)
+    st = single_value(a[0])
     rep.ran(key or q, True, dict(query=q, expected=str(expected), got=str(st[1]) if st[0] in ("ok", "err") else st[0]))
     if expected == "err":
         if st[0] != "err":
